@@ -1,2 +1,49 @@
-(* C02 — stub *)
-From Zap Require Import Base.Wire C02.Model.
+(* C02 — proofs specific to the property; the heavy lifting is in Enc/. *)
+From Coq Require Import List ZArith Bool.
+From Coq.Strings Require Import Byte.
+Import ListNotations.
+From Zap Require Import Base.Wire Enc.Bytes Enc.Fields Enc.JsonEnc Enc.JsonParse Enc.WireEnc Enc.JsonAst Enc.Wf Enc.MapEnc
+  Enc.Parse1 Enc.Parse3 Enc.Parse4 Enc.MapAgree Enc.Codec C02.Model.
+
+Lemma jv_eqb_refl : forall v, jv_eqb v v = true.
+Proof.
+  fix IH 1. intros [| b | r | s | l | l]; cbn [jv_eqb].
+  - reflexivity.
+  - destruct b; reflexivity.
+  - now apply bytes_eqb_eq.
+  - now apply bytes_eqb_eq.
+  - induction l as [|x r IHl]; [reflexivity|]. now rewrite IH, IHl.
+  - induction l as [|[k x] r IHl]; [reflexivity|]. rewrite IH, IHl. assert (bytes_eqb k k = true) by now apply bytes_eqb_eq. now rewrite H.
+Qed.
+
+(* the value a finite float contributes is exactly the number token strconv produced for its own
+   bits at its own bit size; NaN and the infinities are the three strings *)
+Lemma float_token f :
+  jv_of (TA (float_atom f)) =
+  match fcls f with
+  | FFin => JNum (ftxt f)
+  | FNaN => JStr [x4e; x61; x4e] | FPInf => JStr [x2b; x49; x6e; x66] | FNInf => JStr [x2d; x49; x6e; x66]
+  end.
+Proof. unfold float_atom. destruct (fcls f); reflexivity. Qed.
+
+(* the line half of the wire-level oracle accepts what the model observes *)
+Definition spec_line (i o : sx) : bool :=
+  let ec := dec_case i in let c := ec_cfg ec in
+  match sx_l o with
+  | SB out :: _ =>
+      match line_obj (resolved_le c) out with
+      | Some ms => jv_eqb (JObj ms) (JObj (jv_mem (entry_members c (ec_ctxs ec) (ec_ent ec) (ec_fs ec))))
+      | None => false
+      end
+  | _ => false
+  end.
+Theorem wire_line i : wf i = true ->
+  owf_ctxs (ec_ctxs (dec_case i)) -> owf_flds (ec_fs (dec_case i)) -> rend_pre (t_rend (time_val (ec_ent (dec_case i)))) ->
+  spec_line i (model i) = true.
+Proof.
+  unfold wf, spec_line, model. intros Hw Hc Hf Ht.
+  apply andb_true_iff in Hw as [Hw We]. apply andb_true_iff in Hw as [Wc Wf'].
+  destruct (entry_valid (ec_cfg (dec_case i)) (ec_ctxs (dec_case i)) (ec_ent (dec_case i)) (ec_fs (dec_case i))
+              eq_refl eq_refl Wc Wf' We Hc Hf Ht) as (out & E & L).
+  rewrite E. cbn [sx_l]. rewrite L. apply jv_eqb_refl.
+Qed.
